@@ -54,6 +54,10 @@ def ex_bfhashes(repo):
 
 
 def obligations():
+    return _own() + (common.shared('C02', ['O2.5-add-block'], 'O6', 'a downloaded body is accepted only for a matched hash that was proved'))
+
+
+def _own():
     return [
         KModelOb('O6.5-script-selection', 'cfd', 'matching_scripts', 'FilterProtocol::check_filters_data + Storage::get_scripts_hash (real text): within the accepted prefix every block whose '
                  'filter matches a registered script with a recorded number below that block is reported (nothing is skipped), nothing is reported for filters matching '
